@@ -455,7 +455,7 @@ _XSD_RE = {
     "integer": _re.compile(r"[+-]?[0-9]+"),
     "Boolean": _re.compile(r"true|false|1|0"),
     "Decimal": _re.compile(r"[+-]?([0-9]+(\.[0-9]*)?|\.[0-9]+)"),
-    "Float": _re.compile(r"[+-]?([0-9]+(\.[0-9]*)?|\.[0-9]+)([Ee][+-]?[0-9]+)?|-?INF|NaN"),
+    "Float": _re.compile(r"[+-]?([0-9]+(\.[0-9]*)?|\.[0-9]+)([Ee][+-]?[0-9]+)?|[+-]?INF|NaN"),
     "Date": _re.compile(rf"(?P<y>{_YEAR})-(?P<m>[0-9]{{2}})-(?P<d>[0-9]{{2}}){_TZ}"),
     "Time": _re.compile(rf"{_TIME}{_TZ}"),
     "DateTime": _re.compile(rf"(?P<y>{_YEAR})-(?P<m>[0-9]{{2}})-(?P<d>[0-9]{{2}})T{_TIME}{_TZ}"),
@@ -1004,3 +1004,359 @@ def correspond(ctx: C.Ctx, cov: C.Coverage) -> List[C.Disagreement]:
     cov.extra["neutral_zones_not_judged"] = ASSUMPTIONS[-1]
     cov.samples = [list(c[:3]) for c in cases[:: max(1, len(cases) // 6)]][:6]
     return dis
+
+
+# =============================================================================================== oracle (implementation only)
+
+FAMILY = {t: "int" for t in XSD_RANGES}
+FAMILY.update({"Float": "float", "Double": "float", "Decimal": "decimal", "Duration": "duration", "Boolean": "boolean",
+               "Base64Binary": "base64Binary", "HexBinary": "hexBinary", "String": "string", "AnyURI": "string",
+               "NormalizedString": "normalizedString"})
+FAMILY.update({t: "datetime" for t in DATE_TYPES})
+COLLAPSING = set(ALL_TYPES) - {"String", "NormalizedString"}
+_XML_WS = " \t\n\r"
+
+
+def collapse(s: str) -> str:
+    """XML Schema whiteSpace=collapse"""
+    return " ".join(x for x in _re.split(r"[ \t\n\r]+", s) if x)
+
+
+def neutral_literal(ty: str, s: str) -> bool:
+    """DESIGN §7.3: literals on which neither acceptance nor rejection is judged"""
+    if ty in COLLAPSING and collapse(s) != s and xsd_valid(ty, collapse(s)):
+        return True                                   # valid only after whitespace collapse
+    if ty in ("Date", "DateTime", "GYear", "GYearMonth"):
+        if s.startswith("-") or s.startswith("0000"):
+            return True                               # negative years, year 0000
+        m = _re.match(r"[0-9]{5,}", s)
+        if m:
+            return True                               # years beyond 9999: outside the quantified domain
+    if ty in ("Time", "DateTime") and _re.search(r"(^|T)24:00:00", s):
+        return True
+    if ty in ("Time", "DateTime") and _re.search(r":[0-5][0-9]:60", s):
+        return True                                   # leap second
+    return False
+
+
+def lax_class(ty: str, s: str) -> str:
+    """why an accepted literal is outside the lexical space (part of the finding signature)"""
+    fam = FAMILY[ty]
+    if ty in COLLAPSING:
+        s = collapse(s)
+    if any(ord(c) > 127 and (c.isdecimal() or c.isdigit() or c.isnumeric()) for c in s) and fam not in ("base64Binary",):
+        return "non-ascii-digit"
+    if fam == "base64Binary":
+        return "lenient"
+    if fam == "hexBinary":
+        return "whitespace" if any(c in " \t\n\r\x0b\x0c" for c in s) else "other"
+    if any(c.isspace() for c in s):
+        return "non-xml-whitespace" if fam in ("int", "float", "decimal") else "other"
+    if fam in ("int", "float", "decimal") and "_" in s:
+        return "underscore"
+    if fam == "float":
+        return "special-spelling" if _re.fullmatch(r"[+-]?(inf|infinity|nan)", s, _re.I) else "other"
+    if fam == "decimal":
+        if _re.fullmatch(r"[+-]?(inf|infinity|s?nan[0-9]*)", s, _re.I):
+            return "special-value"
+        if _re.fullmatch(r"[+-]?([0-9]+\.?[0-9]*|\.[0-9]+)[eE][+-]?[0-9]+", s):
+            return "exponent"
+        return "other"
+    if fam == "datetime":
+        m = _re.search(r"[+-]([0-9]{2}):([0-9]{2})$", s)
+        if m and not _re.fullmatch(_TZ, s[m.start():]) and xsd_valid(ty, s[:m.start()]):
+            return "zone-out-of-range"
+        return "other"
+    if fam == "duration":
+        return "empty-designator" if _re.fullmatch(r"-?P([0-9]+Y)?([0-9]+M)?([0-9]+D)?T?", s) else "other"
+    return "other"
+
+
+def _xs(ty: str) -> str:
+    return "xs:" + OWN_NAMES[ty]
+
+
+def _py_type(D, ty: str):
+    return getattr(D, ty)
+
+
+def values_equal(D, ty: str, v, w) -> Optional[str]:
+    """None if equal (the property's 'equal value'), else a short description of the difference"""
+    import math
+    T = _py_type(D, ty)
+    if type(w) is not T and not (ty in ("Float", "Double", "Integer", "Boolean", "String") and type(w) is T):
+        if not isinstance(w, T) or type(w).__name__ != T.__name__:
+            return f"type:{type(w).__name__}"
+    if ty in ("Float", "Double"):
+        if math.isnan(v) or math.isnan(w):
+            return None if (math.isnan(v) and math.isnan(w)) else "nan"
+        return None if (v == w and math.copysign(1, v) == math.copysign(1, w)) else "float"
+    if ty == "Decimal":
+        return None if v == w else "decimal"
+    a, b = canon_value(ty, v), canon_value(ty, w)
+    if a == b:
+        return None
+    if isinstance(a, list) and isinstance(b, list) and len(a) == len(b):
+        names = {"Duration": ["years", "months", "days", "hours", "minutes", "seconds", "microseconds"],
+                 "DateTime": ["year", "month", "day", "hour", "minute", "second", "microsecond", "zone"],
+                 "Date": ["year", "month", "day", "zone"], "Time": ["hour", "minute", "second", "microsecond", "zone"]}.get(ty)
+        idx = [i for i, (x, y) in enumerate(zip(a, b)) if x != y]
+        if names:
+            return "+".join(names[i] for i in idx)
+        return "zone" if idx == [len(a) - 1] else "field"
+    return "value"
+
+
+def in_value_space(ty: str, j) -> Optional[str]:
+    """None if the canonical value is inside the XSD value space the property quantifies over; else why not.
+    'neutral' = outside the quantified domain and not judged."""
+    if ty in DATE_TYPES:
+        z = j[-1]
+        if isinstance(z, list):
+            return "neutral"                       # zone with seconds
+        if z is not None and abs(z) > 840:
+            return "zone-out-of-range"
+        if ty in ("GYear", "GYearMonth") and not 1 <= j[0] <= 9999:
+            return "neutral"
+        return None
+    if ty == "Decimal" and j[0] != "fin":
+        return "special-value"
+    return None
+
+
+def check_value(D, ty: str, j) -> Optional[C.Failing]:
+    """round trip + validity of the produced literal for one value; rejection for values outside the value space"""
+    case = ["value", ty, j]
+    xs, fam = _xs(ty), FAMILY[ty]
+    try:
+        v = build_value(D, ty, j)
+    except Exception:
+        return None                                 # not constructible: nothing to serialise
+    why = in_value_space(ty, j)
+    if why == "neutral":
+        return None
+    if ty == "Duration":
+        fields = canon_value(ty, v)                 # after the constructor's carries
+        if fields[0] == "unmodelled-duration":
+            return None
+        if len({x[0] == "-" for x in fields if x != "0"}) > 1:
+            why = "mixed-sign"
+    try:
+        lit = D.xsd_repr(v)
+    except ValueError:
+        return None if why else C.Failing(f"lex:repr:{fam}:raises", f"xsd_repr raises ValueError on a {xs} value {j}", case)
+    except Exception as e:
+        return C.Failing(f"lex:repr:{fam}:raises:{type(e).__name__}", f"xsd_repr({j}) raised {e!r}", case)
+    if why:
+        return C.Failing(f"lex:repr:{fam}:not-rejected:{why}",
+                         f"a value outside the {xs} value space ({why}) is serialised as {lit!r} instead of being rejected", case, lit, "ValueError")
+    if not isinstance(lit, str):
+        return C.Failing(f"lex:repr:{fam}:not-a-string", f"xsd_repr returned {type(lit).__name__}", case)
+    if not xsd_valid(ty, lit):
+        return C.Failing(f"lex:repr:{fam}:invalid-literal", f"xsd_repr gives {lit!r}, not a valid {xs} literal (value {j})", case, lit)
+    try:
+        w = D.from_xsd(lit, _py_type(D, ty))
+    except Exception as e:
+        return C.Failing(f"lex:roundtrip:{fam}:own-literal-rejected", f"from_xsd rejects {lit!r} produced by xsd_repr ({xs}): {e!r}", case, repr(e))
+    diff = values_equal(D, ty, v, w)
+    if diff is not None:
+        big = ty == "Duration" and any(abs(int(x)) >= 2 ** 53 for x in j)
+        return C.Failing(f"lex:roundtrip:{fam}:value-changed:{'field>=2^53' if big else diff}",
+                         f"{xs} value {j} -> {lit!r} -> {canon_value(ty, w) if ty not in ('Float', 'Double') else w!r}", case,
+                         str(canon_value(ty, w)), str(j))
+    return None
+
+
+def check_literal(D, ty: str, s: str) -> Optional[C.Failing]:
+    """a candidate literal outside the lexical space / value space must be rejected with ValueError"""
+    if neutral_literal(ty, s):
+        return None
+    case = ["parse", ty, s]
+    xs, fam = _xs(ty), FAMILY[ty]
+    valid = xsd_valid(ty, s)
+    try:
+        v = D.from_xsd(s, _py_type(D, ty))
+    except ValueError:
+        return None
+    except Exception as e:
+        if isinstance(e, UnicodeError):
+            return None
+        return C.Failing(f"lex:parse:{fam}:wrong-exception:{type(e).__name__}", f"from_xsd({s!r}, {ty}) raised {e!r} instead of ValueError", case)
+    if not valid:
+        return C.Failing(f"lex:parse:{fam}:accepts-invalid:{lax_class(ty, s)}",
+                         f"from_xsd({s!r}, {ty}) returns {v!r} although the string is not a valid {xs} literal", case, repr(v), "ValueError")
+    if ty in XSD_RANGES:
+        lo, hi = XSD_RANGES[ty]
+        val = int(s)
+        if (lo is not None and val < lo) or (hi is not None and val > hi):
+            return C.Failing(f"lex:range:{xs}:literal-out-of-range-accepted", f"from_xsd({s!r}, {ty}) returns {v!r}", case, repr(v), "ValueError")
+        if int(v) != val:
+            return C.Failing(f"lex:range:{xs}:literal-value-changed", f"from_xsd({s!r}, {ty}) returns {v!r}", case, repr(v), val)
+    return None
+
+
+def check_range(D, ty: str, val: int) -> Optional[C.Failing]:
+    """a Python int outside the value space must be refused by the class and by trivial_cast; inside it must be kept"""
+    lo, hi = XSD_RANGES[ty]
+    inside = (lo is None or val >= lo) and (hi is None or val <= hi)
+    T = _py_type(D, ty)
+    case = ["range", ty, str(val)]
+    for how, f in (("constructor", lambda: T(val)), ("trivial_cast", lambda: D.trivial_cast(val, T))):
+        try:
+            r = f()
+        except ValueError:
+            if inside:
+                return C.Failing(f"lex:range:{_xs(ty)}:{how}:rejects-member", f"{ty} refuses {val}", case)
+            continue
+        except Exception as e:
+            return C.Failing(f"lex:range:{_xs(ty)}:{how}:wrong-exception", f"{ty}({val}) raised {e!r}", case)
+        if not inside:
+            return C.Failing(f"lex:range:{_xs(ty)}:{how}:out-of-range-accepted", f"{ty}: {val} outside [{lo}, {hi}] accepted as {r!r}", case, repr(r), "ValueError")
+        if int(r) != val:
+            return C.Failing(f"lex:range:{_xs(ty)}:{how}:value-changed", f"{ty}: {val} became {r!r}", case, repr(r), val)
+    return None
+
+
+def check_names(D) -> List[C.Failing]:
+    out = []
+    seen: Dict[str, str] = {}
+    for ident, own in OWN_NAMES.items():
+        cls = getattr(D, ident, None)
+        got = D.XSD_TYPE_NAMES.get(cls)
+        if got is None:
+            out.append(C.Failing(f"names:{ident}:unnamed", f"{ident} has no entry in XSD_TYPE_NAMES (expected xs:{own})", ["names", ident], None, "xs:" + own))
+        elif got != "xs:" + own:
+            out.append(C.Failing(f"names:{ident}:announced-as:{got}", f"{ident} is announced as {got}, not xs:{own}", ["names", ident], got, "xs:" + own))
+        if got is not None:
+            if got in seen:
+                out.append(C.Failing(f"names:shared:{got}", f"{seen[got]} and {ident} share the name {got}", ["names", ident]))
+            seen[got] = ident
+            if D.XSD_TYPE_CLASSES.get(got) is not cls:
+                out.append(C.Failing(f"names:{ident}:classes-not-inverse", f"XSD_TYPE_CLASSES[{got!r}] is not {ident}", ["names", ident]))
+    if len(D.XSD_TYPE_NAMES) != len(OWN_NAMES) or len(D.XSD_TYPE_CLASSES) != len(D.XSD_TYPE_NAMES):
+        out.append(C.Failing("names:size", f"{len(D.XSD_TYPE_NAMES)} names / {len(D.XSD_TYPE_CLASSES)} classes for {len(OWN_NAMES)} types", ["names", "*"]))
+    return out
+
+
+def check_cast(D, ty: str, pv) -> Optional[C.Failing]:
+    """trivial_cast must not coerce a value outside the target's value space"""
+    case = ["cast", ty, pv]
+    r = impl_cast(D, ty, pv)
+    if pv[0] == "int" and ty in XSD_RANGES:
+        return check_range(D, ty, int(pv[1]))
+    if pv[0] == "int" and ty == "Boolean" and int(pv[1]) not in (0, 1) and r[0] != "raise":
+        return C.Failing("cast:int-to-boolean:coerced", f"trivial_cast({pv[1]}, Boolean) returns {r} instead of raising", case, r, "error")
+    if pv[0] == "str" and ty == "NormalizedString" and any(c in pv[1] for c in "\r\n\t") and r[0] != "raise":
+        return C.Failing("cast:str-to-normalizedString:accepted", f"trivial_cast({pv[1]!r}, NormalizedString) returns {r}", case, r, "ValueError")
+    if r[0] == "raise" and r[1] not in ("ValueError", "TypeError"):
+        return C.Failing(f"cast:wrong-exception:{r[1]}", f"trivial_cast({pv}, {ty}) raised {r[1]}", case)
+    return None
+
+
+CONSTRUCTOR_PROBES = [("GMonth", [0]), ("GMonth", [13]), ("GDay", [0]), ("GDay", [32]), ("GYearMonth", [2020, 0]), ("GYearMonth", [2020, 13]),
+                      ("GMonthDay", [0, 1]), ("GMonthDay", [13, 1]), ("GMonthDay", [1, 0]), ("GMonthDay", [1, 32]), ("GMonthDay", [2, 30]),
+                      ("GMonthDay", [2, 31]), ("GMonthDay", [4, 31]), ("GMonthDay", [6, 31]), ("GMonthDay", [9, 31]), ("GMonthDay", [11, 31]),
+                      ("Date", [2023, 2, 29]), ("Date", [2020, 13, 1]), ("Date", [2020, 4, 31]), ("NormalizedString", ["a\tb"]),
+                      ("NormalizedString", ["a\nb"]), ("NormalizedString", ["a\rb"])]
+
+
+def check_constructor(D, ty: str, args) -> Optional[C.Failing]:
+    """month/day ranges and forbidden white space: the value must not come into existence"""
+    try:
+        v = getattr(D, ty)(*args)
+    except ValueError:
+        return None
+    except Exception as e:
+        return C.Failing(f"lex:construct:{ty}:wrong-exception", f"{ty}{tuple(args)} raised {e!r}", ["construct", ty, args])
+    try:
+        lit = D.xsd_repr(v)
+    except ValueError:
+        return None
+    return C.Failing(f"lex:construct:{ty}:out-of-range-accepted", f"{ty}{tuple(args)} is accepted and serialised as {lit!r}", ["construct", ty, args], lit, "ValueError")
+
+
+def check_case(D, case) -> Optional[C.Failing]:
+    k = case[0]
+    if k in ("value", "repr"):
+        return check_value(D, case[1], case[2])
+    if k == "parse":
+        return check_literal(D, case[1], case[2])
+    if k == "range":
+        return check_range(D, case[1], int(case[2]))
+    if k == "cast":
+        return check_cast(D, case[1], case[2])
+    if k == "construct":
+        return check_constructor(D, case[1], case[2])
+    if k == "names":
+        fs = [f for f in check_names(D) if case[1] in ("*", f.case[1])]
+        return fs[0] if fs else None
+    return None
+
+
+def extra_oracle_cases(ctx: C.Ctx) -> List[Any]:
+    """inputs the model comparison does not see: Unicode digits, zones beyond 14:00, huge duration fields, probes"""
+    rng = random.Random(f"C06:oracle:{ctx.seed}")
+    out: List[Any] = [["construct", t, a] for t, a in CONSTRUCTOR_PROBES]
+    for ty in ("Date", "Time", "DateTime", "GYear", "GMonth", "GDay", "GYearMonth", "GMonthDay"):
+        for z in (841, -841, 900, -900, 1439, -1439):
+            base = {"Date": [2020, 6, 15], "Time": [1, 2, 3, 0], "DateTime": [2020, 6, 15, 1, 2, 3, 4], "GYear": [2020], "GMonth": [6],
+                    "GDay": [15], "GYearMonth": [2020, 6], "GMonthDay": [6, 15]}[ty]
+            out.append(["value", ty, base + [z]])
+    for k in (2 ** 53 + 1, -(2 ** 53 + 1), 10 ** 17 + 1):
+        out.append(["value", "Duration", [str(k), "0", "0", "0", "0", "0", "0"]])
+        out.append(["value", "Duration", ["0", "0", str(k), "0", "0", "0", "0"]])
+    for _ in range(ctx.budget(100, 1000)):
+        out.append(["value", "Duration", [str(rng.randint(-2 ** 52, 2 ** 52)) if rng.random() < 0.3 else "0" for _ in range(3)] + ["0"] * 4])
+    for ty in ALL_TYPES:
+        for s in HANDMADE.get(ty, []):
+            if not modelled(ty, s):
+                out.append(["parse", ty, s])
+    for ty in XSD_RANGES:
+        lo, hi = XSD_RANGES[ty]
+        for b in (lo, hi):
+            if b is not None:
+                for v in (b - 1, b, b + 1, b * 2 + 1, b - 2 ** 64, b + 2 ** 64):
+                    out.append(["range", ty, str(v)])
+        for _ in range(20):
+            out.append(["range", ty, str(gen_int_for(ty, rng))])
+    return out
+
+
+def oracle(ctx: C.Ctx, cov: C.Coverage) -> List[C.Failing]:
+    D = _D()
+    ctx2 = C.Ctx(ctx.prop, ctx.tier, ctx.seed, random.Random(f"{ctx.prop}:{ctx.seed}"), ctx.t0, ctx.jobs)
+    cases = [[op, ty, arg] for op, ty, arg, _ in gen_cases(ctx2) if op != "valid"] + extra_oracle_cases(ctx)
+    out: List[C.Failing] = check_names(D)
+    sigs = {f.sig for f in out}
+    n = 0
+    for case in cases:
+        try:
+            f = check_case(D, case)
+        except RecursionError:
+            f = None
+        n += 1
+        if f is not None and f.sig not in sigs:
+            sigs.add(f.sig)
+            out.append(f)
+    cov.extra["oracle_cases"] = n
+    cov.extra["oracle_distinct_failure_signatures"] = sorted(sigs)
+    return out
+
+
+def search(ctx: C.Ctx, disagreements, broken) -> List[C.Failing]:
+    """something no longer checks: look at the disagreeing cases first, then a bigger seeded sweep"""
+    D = _D()
+    out = []
+    for d in disagreements:
+        if isinstance(d.case, list) and len(d.case) == 3 and d.case[0] in ("parse", "repr", "cast"):
+            f = check_case(D, d.case)
+            if f:
+                out.append(f)
+    if out:
+        return out
+    big = C.Ctx(ctx.prop, "thorough" if ctx.tier == "quick" else ctx.tier, ctx.seed + 1, random.Random(f"search:{ctx.seed}"), ctx.t0, ctx.jobs)
+    return oracle(big, C.Coverage())
+
+
+def replay(case) -> Optional[C.Failing]:
+    return check_case(_D(), case)
